@@ -21,7 +21,7 @@ from simkit import net as simnet
 
 ID = "C19"
 LEVEL = "fault_enumeration"
-TIERS = {"quick": {"runs": 800, "wall": 150}, "thorough": {"runs": 40000, "wall": 1500}}
+TIERS = {"quick": {"runs": 2000, "wall": 150}, "thorough": {"runs": 40000, "wall": 1500}}
 TRACE_KEYS = ("faults",)
 RUN_TIMEOUT = 240     # one run = fault-free + every single fault (+ pairs) on one world
 RULE = ("worlds = seeded random file histories v0..vn (n<=6, <=12 lines each) published as "
